@@ -60,9 +60,12 @@ def run_jobs(jobs, procs=8, watchdog=20000, timeout=3600):
             procs_l.append({"k": k, "jf": jf, "rf": os.path.join(run, "rec%d.ndjson" % k), "n": len(part), "skip": 0, "p": None})
         t0 = time.time()
 
+        crashes = [0]
+
         def start(pr):
+            pr["ef"] = os.path.join(run, "err%d.txt" % pr["k"])
             pr["p"] = subprocess.Popen([drv, "search-record", "-jobs", pr["jf"], "-rec", pr["rf"], "-skip", str(pr["skip"]),
-                                        "-watchdog", str(watchdog)], cwd=run, stdout=subprocess.DEVNULL, stderr=subprocess.DEVNULL)
+                                        "-watchdog", str(watchdog)], cwd=run, stdout=subprocess.DEVNULL, stderr=open(pr["ef"], "w"))
         for pr in procs_l:
             if pr["n"]:
                 start(pr)
@@ -84,7 +87,27 @@ def run_jobs(jobs, procs=8, watchdog=20000, timeout=3600):
                     pr["skip"] = done
                     start(pr)
                 else:
-                    raise Inconclusive("search driver died (rc=%s) after %d of %d jobs" % (rc, done, pr["n"]))
+                    # the process died while it ran job number `done` of its list. A panic on the search goroutine cannot be
+                    # recovered by the driver: when the dying goroutine was inside the engine, that IS the observation (the
+                    # search brought the engine down) - recorded for that job, and the rest of the list goes on
+                    err = open(pr["ef"], errors="replace").read()[-6000:] if os.path.exists(pr["ef"]) else ""
+                    first = err.split("goroutine ", 2)[1] if "goroutine " in err else ""
+                    crashes[0] += 1
+                    if done >= pr["n"] or "/internal/" not in first or crashes[0] > 40:
+                        raise Inconclusive("search driver died (rc=%s) after %d of %d jobs: %s" % (rc, done, pr["n"], err[-400:]))
+                    job = [json.loads(l) for l in open(pr["jf"])][done]
+                    what = (err.split("\n\ngoroutine")[0].strip().splitlines() or ["?"])[0][:300]
+                    frames = [l.strip() for l in first.splitlines() if "/internal/" in l][:4]
+                    rec = {"id": job["id"], "tag": job.get("tag", ""), "mode": job.get("mode", ""), "best": -1, "ponder": -1, "fen": "",
+                           "error": "CRASH: the search brought the process down: %s @ %s" % (what, " | ".join(frames)), "cfg": "",
+                           "infos": [], "pv": [], "results": 0, "terminal": [], "value": 0, "depth": 0, "nodes": 0}
+                    with open(pr["rf"], "a") as fh:
+                        fh.write(json.dumps(rec) + "\n")
+                    pr["skip"] = done + 1
+                    if pr["skip"] >= pr["n"]:
+                        pending.remove(pr)
+                    else:
+                        start(pr)
         recs = []
         for pr in procs_l:
             if os.path.exists(pr["rf"]):
